@@ -168,6 +168,9 @@ pub struct DensLog {
     pub evals: Vec<(u64, Vec<f64>, Option<f64>, Vec<f64>)>,
     /// indices at which a fault actually fired
     pub fired: Vec<u64>,
+    /// Some(n): the density panics with "evaluation budget exceeded" at evaluation n (harness
+    /// watchdog for configurations that make a draw astronomically long)
+    pub eval_budget: Option<u64>,
 }
 
 pub type LogRc = Rc<RefCell<DensLog>>;
@@ -233,6 +236,12 @@ impl CpuLogpFunc for Dens {
         let mut log = self.log.borrow_mut();
         let k = log.n_eval;
         log.n_eval += 1;
+        if let Some(b) = log.eval_budget {
+            if k >= b {
+                drop(log);
+                panic!("HARNESS: evaluation budget exceeded");
+            }
+        }
         let fault = log.faults.iter().find(|(i, _)| *i == k).map(|(_, f)| *f);
         let mut lp = self.target.logp(position, gradient);
         let mut res = Ok(());
